@@ -197,6 +197,7 @@ func (c C11) runSubscriptions(t *tape.Tape, opt core.RunOpt) (res core.Result) {
 			}
 		}
 		failFrom, dropped := 0, false
+		marks := t.Bool(1, 2)
 		if t.Bool(1, 3) {
 			// a subscriber whose k-th delivery fails (it is removed then): the
 			// others registered through the same parsed document stay
@@ -204,7 +205,7 @@ func (c C11) runSubscriptions(t *tape.Tape, opt core.RunOpt) (res core.Result) {
 			res.Count("fault_subscriber_delivery_failure_planned", 1)
 		}
 		for _, w := range []*workload.SubWorld{wa, wb} {
-			w.AddSub(&workload.SimSub{ID: sid, Topic: topic, SelIndex: sel, FailFrom: failFrom, Dropped: dropped})
+			w.AddSub(&workload.SimSub{ID: sid, Topic: topic, SelIndex: sel, FailFrom: failFrom, Dropped: dropped, Marks: marks})
 		}
 		vars := map[string]interface{}{"sid": sid}
 		_, ea := wa.Root.ResolveExecutable(exe, op, vars)
